@@ -571,6 +571,17 @@ def check_C16(tier, only):
                 arr, clo = args
                 body = closure_body(clo)
                 return Arr(arr.n, lambda i, arr=arr, clo=clo, body=body: run_closure(body, clo, arr.elem(i)))
+            if 'as IntoIterator>::into_iter' in callee: return args[0]
+            if 'RangeInclusive::<usize>::new' in callee and args[0][0] == 'iconst' and args[1][0] == 'iconst':
+                return Struct('range', ['start', 'end'], [args[0], ('iconst', args[1][1] + 1)])
+            if re.search(r' as Iterator>::map::<', callee) and isinstance(args[0], Struct) and args[0].names == ['start', 'end'] and isinstance(args[1], Closure):
+                return ('mapobj', args[0], args[1])
+            if re.search(r' as Iterator>::collect::<', callee) and isinstance(args[0], tuple) and args[0] and args[0][0] == 'mapobj':
+                rng, clo = args[0][1], args[0][2]
+                lo, hi = rng.fields
+                if lo[0] != 'iconst' or hi[0] != 'iconst': raise RuntimeError('range with symbolic bounds in collect')
+                body = closure_body(clo)
+                return Arr(hi[1] - lo[1], lambda i, clo=clo, body=body, lo=lo[1]: run_closure(body, clo, lo + i))
             if callee.endswith('::len') and isinstance(args[0], Arr): return ('iconst', args[0].n)
             if 'Index<usize>>::index' in callee:
                 return args[0].elem(args[1][1])
@@ -592,28 +603,42 @@ def check_C16(tier, only):
                 ax = it.run()
                 if not isinstance(ax, Struct): raise RuntimeError('constructor did not return a struct')
                 return ax
-            # new_polar: the alpha fixed-point loop and the iterator adaptors are glue: captured values are free
-            # reals (alpha > 0, k0 arbitrary, l = L > 0); arrays are [f(0), ..., f(n-1)] (edges: n+1 entries)
+            # new_polar: executed like the other constructors.  Its fixed-point loop for alpha (`for _ in 0..20`) is summarised by
+            # havoc: every local assigned in the loop body becomes a free real named after its source variable (alpha), and the
+            # execution continues at the loop exit; the iterator adaptors (0..n).map(f).collect() are glue.
             f = F['new_polar'][0]
-            txt = '\n'.join(s for bb in f.order for s in f.blocks[bb])
-            clos = {}
-            for m in re.finditer(r'\{closure@([^}]*)\} \{ (.*?) \}', txt):
-                clos[m.group(1)] = [p.split(':')[0].strip() for p in Interp.split_args(m.group(2))]
-            geom_v = re.search(r'= Geometry::(\w+);', txt).group(1)
-            order = re.search(r'_0 = geometry::Axis \{ (.*) \};', txt).group(1)
-            fieldnames = [p.split(':')[0].strip() for p in Interp.split_args(order)]
-            free = {'alpha': ('var', 'alpha'), 'k0': ('var', 'k0'), 'l': ('var', 'L'), 'points': ('iconst', n), 'x0': ('var', 'x0')}
-            bodies = sorted(F[r'new_polar::\{closure#\d+\}'], key=lambda c: c.name)
-            objs = []
-            for b in bodies:
-                tn = [t for t in clos if t in b.header][0]
-                objs.append((b, Closure(tn, [free[x] for x in clos[tn]])))
-            # closure#0: grid, closure#1: edges, closure#2: integration weights (source order)
-            grid = Arr(n, lambda i: run_closure(objs[0][0], objs[0][1], i))
-            edges = Arr(n + 1, lambda i: run_closure(objs[1][0], objs[1][1], i))
-            w = Arr(n, lambda i: run_closure(objs[2][0], objs[2][1], i))
-            vals = {'geometry': Enum(geom_variants.index(geom_v), geom_v, []), 'grid': grid, 'edges': edges, 'integration_weights': w, 'potential_offset': ('const', __import__('fractions').Fraction(0))}
-            return Struct('geometry::Axis', fieldnames, [vals[x] for x in fieldnames])
+            it = Interp(f, {'_1': ('iconst', n), '_2': ('var', 'quantity')}, glue=glue); it.enums = enums
+            it.redirect = {}
+            for hb in f.order:
+                t = f.blocks[hb][-1] if f.blocks[hb] else ''
+                mh = re.match(r'(_\d+) = <std::ops::Range<\w+> as Iterator>::next\(.*\) -> \[return: (bb\d+)', t)
+                if not mh: continue
+                sw = f.blocks[mh.group(2)][-1]
+                ms = re.match(r'switchInt\(.*\) -> \[0: (bb\d+), 1: (bb\d+)', sw)
+                if not ms: raise RuntimeError('loop header %s of new_polar: unexpected successor %s' % (hb, sw))
+                exit_bb, body_bb = ms.group(1), ms.group(2)
+                # blocks of the loop body: reachable from body_bb without passing the header
+                body, todo = set(), [body_bb]
+                while todo:
+                    x = todo.pop()
+                    if x in body or x == hb: continue
+                    body.add(x)
+                    todo += re.findall(r'(?:return|success|otherwise|\d+): (bb\d+)', f.blocks[x][-1]) + re.findall(r'goto -> (bb\d+)', f.blocks[x][-1])
+                assigned = set()
+                for x in body:
+                    for st_ in f.blocks[x]:
+                        ma = re.match(r'(_\d+) = ', st_)
+                        if ma: assigned.add(ma.group(1))
+
+                def summarise(env, assigned=assigned, exit_bb=exit_bb, f=f):
+                    for loc in assigned:
+                        if f.types.get(loc, '').strip() == 'f64':
+                            env[loc] = ('var', f.debug.get(loc, 'loop' + loc))
+                    return exit_bb
+                it.redirect[hb] = summarise
+            ax = it.run()
+            if not isinstance(ax, Struct): raise RuntimeError('new_polar did not return a struct')
+            return ax
 
         build_native()
         for geom, gidx in (('new_cartesian', 0), ('new_polar', 1), ('new_spherical', 2)):
@@ -668,11 +693,11 @@ def check_C16(tier, only):
         import traceback
         out.inconclusive.append('E-M failed: ' + traceback.format_exc()[-1500:])
     cov['functions_encoded'] = ['feos_dft::Axis::new_cartesian, new_spherical (+ weight closure), new_polar weight/edge closures, Axis::volume, Geometry::dimension (MIR)']
-    cov['bounds'] = 'grid points n in [%d, %d] (one obligation per n and geometry), all real lengths L > 0, all real alpha > 0 and k0 for the polar log-grid; potential_offset = None' % (ns[0], ns[-1])
+    cov['bounds'] = 'grid points n in [%d, %d] (one obligation per n and geometry), all real lengths L > 0, all real alpha > 0 for the polar log-grid; potential_offset = None' % (ns[0], ns[-1])
     cov['evaluations'] = max(1, cov['obligations']); cov['distinct_nontrivial'] = max(2, cov['discharged'])
     out.coverage = cov
     out.assumptions = ['reals instead of f64 rounding', 'glue models: linspace(a,b,n)[0]=a, [n-1]=b; from_elem; from_shape_fn(n,f)=[f(0..n-1)]; (0..n).map(f).collect()=[f(0..n-1)]; Index; len',
-                       'polar grid: the 20-step fixed-point loop for alpha is over-approximated by a free alpha > 0; k0 is a free real; exp(c*alpha) for integer c is rewritten to exp(alpha)^c',
+                       'polar grid: the 20-step fixed-point loop for alpha is summarised by havoc (every f64 local assigned in the loop body becomes a free real, alpha > 0 assumed); k0 and all other quantities are computed from it by the real code; exp(c*alpha) for integer c is rewritten to exp(alpha)^c', 'glue: (a..b).map(f).collect() = [f(a), ..., f(b-1)], RangeInclusive::new(a, b) = a..b+1, mapv(f)',
                        'only the system-volume clause of C16 is decided; weighted densities / Euler-Lagrange residual of a uniform profile need FFT convolutions (not applicable)']
     return out.finish()
 
